@@ -702,6 +702,25 @@ def call(ex, callee, args):
                     items = items[n:]
                 return IterV("list", items, 0)
             return NotImplemented
+        if meth in ("try_fold", "try_for_each"):
+            model(f"Iterator::{meth}: sequential, stops at the first Err / None")
+            acc = args[1] if meth == "try_fold" else Agg("tuple")
+            f = args[2] if meth == "try_fold" else args[1]
+            good = None
+            while True:
+                x = iter_next(ex, it)
+                if x is None:
+                    if good is None:
+                        m = re.search(r"::try_(?:fold|for_each)::<.*(std::result::Result|std::option::Option)<", c)
+                        good = "Some" if m and m.group(1).endswith("Option") else "Ok"
+                    return Agg("Option" if good == "Some" else "Result", good, {0: acc})
+                r = ex.call_closure(f, [acc, x] if meth == "try_fold" else [x])
+                if not (isinstance(r, Agg) and r.ty in ("Result", "Option")):
+                    raise Unsupported(f"try_fold closure returned {r}")
+                good = "Ok" if r.ty == "Result" else "Some"
+                if r.variant != good:
+                    return r
+                acc = r.fields[0]
         if meth in ("count", "last", "for_each", "fold", "nth"):
             model(f"Iterator::{meth}: sequential")
             if meth == "count":
@@ -731,6 +750,12 @@ def call(ex, callee, args):
                     acc = ex.call_closure(args[2], [acc, x])
             if meth == "nth":
                 n = ex.concrete_int(args[1])
+                if n is None and it.kind == "vec_into" and it.src.items is None and it.pos == 0:
+                    nt = ex.zi(args[1])
+                    ex.assume(vec_len(it.src.abs) >= 0)
+                    if ex.choose([("in", nt < vec_len(it.src.abs)), ("out", nt >= vec_len(it.src.abs))], "iter-nth") == "in":
+                        return some(SymVal(vec_at(it.src.abs, nt)))
+                    return NONE()
                 if n is None:
                     raise Unsupported("nth with a symbolic index")
                 x = None
@@ -761,9 +786,7 @@ def call(ex, callee, args):
             if lab != "hit":
                 return NONE()
             if r.cell.ro and not (isinstance(args[0], Ref) and args[0].cell.ro):
-                map_insert(ex, args[0], key, copy_val(ex.read_ref(r)))
-                m = deref_all(ex, args[0])
-                r = Ref(args[0].cell, args[0].path + (("kv", len(m.layers) - 1),), True)
+                r = Ref(Cell(copy_val(ex.read_ref(r)), name="map-slot", cow=(args[0], key)), (), True)
             return some(r)
         if last == "get":
             model("BTreeMap::get: exact key lookup, newest binding")
@@ -929,6 +952,17 @@ def call(ex, callee, args):
         v.items[n] = v.items[-1]
         v.items.pop()
         return x
+    if re.match(r"(std|alloc|core)::slice::<impl \[.*\]>::join(::<.*>)?$", c):
+        v = deref_all(ex, args[0])
+        sep = deref_all(ex, args[1])
+        if isinstance(v, VecV) and v.items is not None and isinstance(sep, Str):
+            model("[&str]::join(sep): concatenation with separators")
+            parts = []
+            for i, x in enumerate(v.items):
+                if i:
+                    parts.append(sep.t)
+                parts.append(as_str(ex, x).t)
+            return Str(z3.Concat(*parts) if len(parts) > 1 else (parts[0] if parts else z3.StringVal("")))
     if re.match(r"core::slice::<impl \[.*\]>::reverse$", c):
         v = deref_all(ex, args[0])
         if isinstance(v, VecV) and v.items is not None:
@@ -989,11 +1023,13 @@ def call(ex, callee, args):
                 return do_insert(args[1])
             if which == "VacantEntry" and meth in ("key", "into_key"):
                 return key
-            if which == "OccupiedEntry" and meth in ("get", "get_mut", "into_mut"):
-                if isinstance(slot, Ref) and slot.cell.ro and meth != "get":
-                    # a binding of the abstract base: materialise it as a newer binding so that it can be written
-                    return do_insert(copy_val(ex.read_ref(slot)))
+            def writable(slot):
+                if isinstance(slot, Ref) and slot.cell.ro:
+                    # a binding of the abstract base: copy on write
+                    return Ref(Cell(copy_val(ex.read_ref(slot)), name="entry-slot", cow=(mref, key)), (), True)
                 return slot
+            if which == "OccupiedEntry" and meth in ("get", "get_mut", "into_mut"):
+                return slot if meth == "get" else writable(slot)
             if which == "OccupiedEntry" and meth == "insert":
                 old = copy_val(ex.read_ref(slot))
                 do_insert(args[1])
@@ -1002,9 +1038,7 @@ def call(ex, callee, args):
                 return key
             if which == "Entry" and meth in ("or_insert", "or_insert_with", "or_default", "or_insert_with_key"):
                 if variant == "Occupied":
-                    if isinstance(slot, Ref) and slot.cell.ro:
-                        return do_insert(copy_val(ex.read_ref(slot)))
-                    return slot
+                    return writable(slot)
                 if meth == "or_insert":
                     return do_insert(args[1])
                 if meth == "or_insert_with":
@@ -1042,12 +1076,33 @@ def call(ex, callee, args):
 
 def option_result(ex, base, last, args, full):
     v = args[0]
+    if isinstance(v, Ref) and last in ("get_or_insert_with", "get_or_insert", "insert", "take", "replace"):
+        pass
+    elif isinstance(v, Ref) and isinstance(ex.read_ref(v), Agg) and ex.read_ref(v).ty in ("Option", "Result") and last in ("is_none", "is_some", "is_ok", "is_err", "as_ref", "as_deref", "as_mut", "is_some_and"):
+        v = ex.read_ref(v)
     if isinstance(v, Ref) and last in ("is_none", "is_some", "is_ok", "is_err", "as_ref", "as_deref", "as_mut", "is_some_and"):
         v = deref_all(ex, v)
-    if not isinstance(v, Agg) or v.ty not in ("Option", "Result"):
+    if isinstance(v, Ref) and last in ("get_or_insert_with", "get_or_insert", "insert", "take", "replace"):
+        pass
+    elif not isinstance(v, Agg) or v.ty not in ("Option", "Result"):
         raise Unsupported(f"{base} on {v}")
-    is_opt = v.ty == "Option"
-    good = "Some" if is_opt else "Ok"
+    if isinstance(v, Ref):
+        is_opt, good = True, "Some"
+    else:
+        is_opt = v.ty == "Option"
+        good = "Some" if is_opt else "Ok"
+    if last in ("get_or_insert_with", "get_or_insert", "insert", "take", "replace") and isinstance(args[0], Ref):
+        o = ex.read_ref(args[0])
+        if isinstance(o, Agg) and o.ty == "Option":
+            if last == "take":
+                ex.write_ref(args[0], NONE())
+                return o
+            if last == "replace":
+                ex.write_ref(args[0], some(args[1]))
+                return o
+            if last == "insert" or o.variant == "None":
+                ex.write_ref(args[0], some(args[1] if last != "get_or_insert_with" else ex.call_closure(args[1], [])))
+            return Ref(args[0].cell, args[0].path + (("f", "Some", 0),), True)
     if last == "ok_or_else":
         return ok(v.fields[0]) if v.variant == "Some" else err(ex.call_closure(args[1], []))
     if last == "ok_or":
